@@ -267,7 +267,11 @@ def tlc(ctx, module, cfg=None, workers=8, timeout=900, simulate=None, depth=None
         if not quiet and len(res["other_lines"]) < 400:
             res["other_lines"].append(line)
     res["ok"] = (rc == 0 and not res["errors"])
-    res["text_tail"] = "\n".join(text.splitlines()[-40:]) if not res["ok"] else ""
+    res["text_tail"] = ""
+    if not res["ok"]:
+        ls = [x for x in text.splitlines() if not re.match(r"^\d+\. Line \d+", x)]
+        first = next((i for i, x in enumerate(ls) if x.startswith("Error:")), max(0, len(ls) - 40))
+        res["text_tail"] = "\n".join(ls[first:first + 60])
     ctx.tlc_runs.append({k: res[k] for k in ("module", "cfg", "states", "distinct", "depth", "wall_s", "ok", "cmd")})
     log(f"[tlc] {cfg}: {res['states']} states, {res['distinct']} distinct, "
         f"{sum(len(v) for v in res['cases'].values())} cases, {wall:.1f}s, ok={res['ok']}")
